@@ -414,3 +414,86 @@ contract(
     verify=False,
     trusted_reason="numpy/float32 sampling of the boundary and envelope of the projected points: outside reach; see compute_reproject_roi@sampled",
 )
+
+
+# ---- BOUNDED: the paste plan against the real GDAL nearest-neighbour warp (validates the NN specification) -----------------------------
+
+
+def _paste_samples():
+    import os
+    import random
+
+    from affine import Affine
+
+    thorough = os.environ.get("PYVC_TIER", "quick") == "thorough"
+    rnd = random.Random(int(os.environ.get("PYVC_SEED", "0")))
+
+    def gen():
+        shifts = [(0, 0), (3, -2), (-4, 5), (17, 11), (-30, -20), (39, 49), (60, 0)]
+        residues = [(0.0, 0.0), (0.04, -0.03), (-0.049, 0.049), (0.2, 0.0)]  # the last is beyond ttol: no paste
+        for (tx, ty) in shifts:
+            for (rx, ry) in residues if thorough else residues[:3] + residues[3:][: (tx == 3)]:
+                for mirror in (False, True) if thorough or tx in (0, 3) else (False,):
+                    for dshape in ((30, 35), (8, 90)):
+                        yield dict(shift=(tx + rx, ty + ry), mirror=mirror, dshape=dshape, rot=False)
+        yield dict(shift=(2.0, 3.0), mirror=False, dshape=(20, 20), rot=True)
+
+    return "source 40x50; destinations on the same grid: 7 whole-pixel shifts x sub-pixel residues (0, within ttol, at ttol, beyond) x plain / X-mirrored x 2 shapes (+ a rotated one): plan vs rasterio nearest warp of the whole destination", gen()
+
+
+def _paste_oracle(args, run=None):
+    import numpy as np
+    from affine import Affine
+
+    from odc.geo.geobox import GeoBox
+    from odc.geo.overlap import compute_reproject_roi
+    from odc.geo.warp import rio_reproject
+
+    src_g = GeoBox((40, 50), Affine(10.0, 0, 500_000.0, 0, -10.0, 6_000_000.0), "EPSG:32633")
+    tx, ty = args["shift"]
+    M = Affine.translation(tx, ty)
+    ny, nx = args["dshape"]
+    if args["mirror"]:
+        M = M * Affine.translation(nx, 0) * Affine.scale(-1, 1)
+    if args["rot"]:
+        M = M * Affine.rotation(20)
+    dst_g = GeoBox((ny, nx), src_g.affine * M, src_g.crs)
+    src = np.arange(1, 40 * 50 + 1, dtype="int32").reshape(40, 50)
+    rr = compute_reproject_roi(src_g, dst_g, ttol=0.05)
+    fails = []
+    ref = np.zeros((ny, nx), dtype="int32")
+    rio_reproject(src, ref, src_g, dst_g, resampling="nearest", src_nodata=0, dst_nodata=0)
+    if not rr.paste_ok:
+        # the plan must still cover every destination pixel GDAL fills
+        filled = ref != 0
+        cover = np.zeros_like(filled)
+        cover[rr.roi_dst] = True
+        if (filled & ~cover).any():
+            fails.append("post:no destination pixel the warp fills lies outside roi_dst")
+        return fails
+    if rr.read_shrink != 1:
+        return fails
+    got = np.zeros((ny, nx), dtype="int32")
+    block = src[rr.roi_src]
+    if args["mirror"]:
+        block = block[:, ::-1]
+    if got[rr.roi_dst].shape != block.shape:
+        return [f"post:paste-able plan has equally sized regions ({got[rr.roi_dst].shape} vs {block.shape})"]
+    got[rr.roi_dst] = block
+    if not np.array_equal(got, ref):
+        n = int((got != ref).sum())
+        fails.append(f"post:copying roi_src into roi_dst is pixel-identical to GDAL's nearest-neighbour warp of the whole destination ({n} pixels differ)")
+    return fails
+
+
+contract(
+    f"{OV}:compute_reproject_roi@gdal",
+    ["C10"],
+    kind="lemma",
+    inputs=dict(),
+    body=lambda: None,
+    verify=False,
+    trusted_reason="GDAL nearest-neighbour resampling is ASSUMED to compute NN(d) = floor(A(d + 1/2)) in the proofs: this BOUNDED native check compares the paste plan with the real warp",
+    native_samples=_paste_samples,
+    native_oracle=_paste_oracle,
+)
